@@ -116,6 +116,7 @@ def run(chk):
     cases = [{"kind": "tlc", "jds": c["jds"], "rows": [[x["e"][0], x["e"][1], x["top"], x["mid"]] for x in c["rows"]]}
              for c in json.load(open(out))]
     chk.exhaustive["every edge list of the model family (N<=3, <=%d rows, loops, repeated pairs) replayed" % (3 if thorough else 2)] = True
+    cases.append({"kind": "empty", "jds": [], "rows": []})          # N = 0: what the generators return for an empty sequence
     rng = _r.Random(chk.seed)
     # random edge lists with loops / repeats / untouched vertices, three rows and more
     for i in range(20000 if thorough else 3000):
